@@ -95,6 +95,8 @@ def _struct_like(facts, ty):
         return False
     if _tuple_arity(ty):
         return True
+    if ty.startswith('{closure@'):
+        return True         # the environment of a closure: one field per capture
     base = re.sub(r'<.*$', '', ty).replace('packing::', '')
     a = facts.adts.get(base)
     if a is not None:
@@ -208,7 +210,7 @@ def _sroa_once(facts, body):
             r = rv['r']
             if kd in ('whole', 'whole*'):
                 dst = s['place']['l'] if kd == 'whole' else alias[s['place']['l']]
-                if r == 'aggr' and rv.get('agg') in ('tuple', 'adt') and (rv.get('agg') == 'tuple' or _struct_like(facts, locs[dst]['ty'])):
+                if r == 'aggr' and rv.get('agg') in ('tuple', 'adt', 'closure') and (rv.get('agg') == 'tuple' or _struct_like(facts, locs[dst]['ty'])):
                     info.nfields[dst] = max(info.nfields.get(dst, 0), len(rv['ops']))
                     for i, o in enumerate(rv['ops']):
                         oty = locs[o['l']]['ty'] if ('l' in o and not o['p']) else o.get('ty')
